@@ -559,30 +559,36 @@ func (c *FunctionComposer) Compose(ctx context.Context, xr *composite.Unstructur
 }
 
 // dropSystemConditions removes any system conditions from the status of the
-// supplied XR.
+// supplied XR, and any system condition types from the types of conditions it
+// asks its claim to show.
 func dropSystemConditions(xr *composite.Unstructured) {
 	status, ok := xr.Object["status"].(map[string]any)
 	if !ok {
 		return
 	}
-	conds, ok := status["conditions"].([]any)
-	if !ok {
-		return
-	}
-	keep := make([]any, 0, len(conds))
-	for _, c := range conds {
-		if m, ok := c.(map[string]any); ok {
-			if t, _ := m["type"].(string); xpv1.IsSystemConditionType(xpv1.ConditionType(t)) {
+	drop := func(key string, typeOf func(v any) any) {
+		vs, ok := status[key].([]any)
+		if !ok {
+			return
+		}
+		keep := make([]any, 0, len(vs))
+		for _, v := range vs {
+			if t, _ := typeOf(v).(string); xpv1.IsSystemConditionType(xpv1.ConditionType(t)) {
 				continue
 			}
+			keep = append(keep, v)
 		}
-		keep = append(keep, c)
+		if len(keep) == 0 {
+			delete(status, key)
+			return
+		}
+		status[key] = keep
 	}
-	if len(keep) == 0 {
-		delete(status, "conditions")
-		return
-	}
-	status["conditions"] = keep
+	drop("conditions", func(v any) any {
+		m, _ := v.(map[string]any)
+		return m["type"]
+	})
+	drop("claimConditionTypes", func(v any) any { return v })
 }
 
 // ComposedFieldOwnerName generates a unique field owner name
